@@ -351,6 +351,8 @@ package main
 
 // A node whose ring differs from the sender's refuses topic traffic - on every request, not only the first.
 //@ func (c *Cluster) TopicMaster(msg *ClusterReq, rejected *bool) (err error)
+//@   requires [C14] true
+//@   locksafe
 //@   requires [C17] c != nil && msg != nil && rejected != nil && c.ring != nil
 //@   modifies inferred
 //@   ensures [C17] signature_gate: old(!msg.Gone && msg.Signature != c.ring.signature) ==> *rejected || old(!(msg.Node in c.nodes) || c.nodes[msg.Node] == nil)
@@ -708,9 +710,9 @@ package main
 // C14 (the schedule-independent part): data shared between goroutines under a lock is touched only with that lock
 // held. `locksafe` turns every read and write of a guarded field into an obligation; objects a function has just
 // created and not yet published are exempt.
-//@ guarded Session.subs by subsLock
-//@ guarded SessionStore.sessCache, SessionStore.lru by lock
-//@ guarded ClusterNode.msess by lock
+//@ guarded [C14] Session.subs by subsLock
+//@ guarded [C14] SessionStore.sessCache, SessionStore.lru by lock
+//@ guarded [C14] ClusterNode.msess by lock
 
 //@ func (s *Session) addSub(topic string, sub *Subscription)
 //@   requires [C14] s != nil
@@ -738,7 +740,7 @@ package main
 //@   modifies *
 //@   locksafe
 //@ func (ss *SessionStore) NewSession(conn any, sid string) (s *Session, count int)
-//@   requires [C14] ss != nil
+//@   requires [C14] true
 //@   modifies *
 //@   locksafe
 //@ func (ss *SessionStore) Get(sid string) (s *Session)
@@ -746,34 +748,35 @@ package main
 //@   modifies inferred
 //@   locksafe
 //@ func (ss *SessionStore) Delete(s *Session)
-//@   requires [C14] ss != nil && s != nil
+//@   requires [C14] true
 //@   modifies *
 //@   locksafe
 //@ func (ss *SessionStore) Range(f func(sid string, s *Session) bool)
-//@   requires [C14] ss != nil
+//@   requires [C14] true
 //@   modifies *
+//@   inline
 //@   locksafe
 //@ func (ss *SessionStore) Shutdown()
-//@   requires [C14] ss != nil
+//@   requires [C14] true
 //@   modifies *
 //@   locksafe
 //@ func (ss *SessionStore) EvictUser(uid types.Uid, skipSid string)
-//@   requires [C14] ss != nil
+//@   requires [C14] true
 //@   modifies *
 //@   locksafe
 //@ func (ss *SessionStore) NodeRestarted(nodeName string, fingerprint int64)
-//@   requires [C14] ss != nil
+//@   requires [C14] true
 //@   modifies *
 //@   locksafe
 //@ func (n *ClusterNode) stopMultiplexingSession(msess *Session)
-//@   requires [C14] n != nil
+//@   requires [C14] true
 //@   modifies *
 //@   locksafe
 //@ func (c *Cluster) gcProxySessionsForNode(node string)
-//@   requires [C14] c != nil
+//@   requires [C14] true
 //@   modifies *
 //@   locksafe
 //@ func serveStatus(wrt http.ResponseWriter, req *http.Request)
-//@   requires [C14] wrt != nil && req != nil
+//@   requires [C14] true
 //@   modifies *
 //@   locksafe
